@@ -24,10 +24,14 @@ CHECKS["C02"] = dict(
          "registry, regenerated from the running code every run, equals the documented wire table), shipped_wf/shipped_roundtrip "
          "(every Serializable shipped in ipv8, regenerated every run, is well-formed hence round-trips). The model is tied to the "
          "real Serializer by differential runs on every registry entry and every shipped class; the property itself "
-         "(identical fields, exact consumption, identical re-encoding, plain/nested/listed) is evaluated on the implementation.",
+         "(identical fields, exact consumption, identical re-encoding, plain/nested/listed) is evaluated on the implementation. "
+         "Second property file props/C02x.v (21 theorems): __init__/to_pack_list/from_unpack_list of the 16 old-style payload classes, "
+         "translated from the AST every run (tr_oldstyle, fail closed), round-trip on every legal instance at any offset "
+         "(oldstyle_glue_roundtrip, oldstyle_class_roundtrip composed with msg_roundtrip, one <Class>_roundtrip each), tied by "
+         "running constructor/to_pack_list/from_unpack_list/encode/decode of real instances against the translated functions in Coq.",
     note="Trusted: Coq kernel; tr_wire introspection; hand model M02_wire (correspondence-checked per run); CPython struct/array/"
-         "socket; str<->UTF-8 bijection. Class-specific field maps of the 16 old-style payloads are covered by the oracle on the "
-         "implementation, not by a theorem. Open finding: array formats use machine byte order (documented big-endian).",
+         "socket; str<->UTF-8 bijection; tr_oldstyle (AST translation of the old-style classes' glue) and the CPython struct/join/"
+         "slice/range model M02_oldstyle. Open finding: array formats use machine byte order (documented big-endian).",
     technique="Coq proof (mutual induction over formats) + translated registry tables + differential correspondence", design="5/C02")
 
 CHECKS["C03"] = dict(
@@ -123,10 +127,15 @@ CHECKS["C09"] = dict(
          "forwards at most max_relay_early - 1 flagged cells per route. Decision rules and constants are regenerated from the source "
          "every run (tr_reclaim). Tied to real TunnelCommunity nodes by lockstep replay of ~600 (quick) / ~6500 (thorough) node histories "
          "from scripted teardown / abandonment / loss scenarios under virtual time; an independent oracle checks freshness, emptiness at "
-         "the deadline, closed sockets, join limit and relay_early budget on the implementation.",
+         "the deadline, closed sockets, join limit and relay_early budget on the implementation. Second property file props/C09x.v "
+         "(6 theorems over the network model M09_network = all nodes + messages in flight, loss/duplication/delay free in the trace): "
+         "path_bounded_reclaim_partial - once the circuit is closing at the originator or the path is broken at any position, every "
+         "node of an h-hop path is empty after B_path = 2*h*D + max_time_inactive + sweep + remove_tunnel_delay; tied by replaying "
+         "whole-network histories (103 quick / 324 thorough teardown scenarios) through the network model in Coq.",
     note="Trusted: Coq kernel; tr_reclaim/tr_expr; harness (instrumentation, state abstraction, timed lossy network, fake transports); "
-         "asyncio under the virtual clock ('timely' assumption, evaluated on every replayed history). Node-level proofs only: the "
-         "path-level composition (all nodes of an h-hop path empty by t+B) is checked by the implementation deadline oracle, not proved. "
+         "asyncio under the virtual clock ('timely' assumption, evaluated on every replayed history). The path-level theorem is partial: "
+         "it assumes the handshake is over (no half-built circuit), distinct nodes/ids on the path, nodes that keep being served, and a "
+         "datagram life-time bound D that is not a py-ipv8 setting; its hypotheses are evaluated on every replayed network history. "
          "Hidden-service branches, DNS destinations and RustEndpoint not modelled. Model follows fixes 6c217ee, 88afc4f.",
     technique="Coq invariant proof (bounded liveness as a safety invariant) + AST-translated rules + lockstep correspondence under virtual time",
     design="5/C09")
